@@ -26,11 +26,12 @@ import (
 )
 
 type c02Core struct {
-	name    string
-	src     string // statements; never terminates
-	blocked bool   // blocks in a channel operation instead of spinning
-	ticks   int    // tick() calls per cycle
-	setup   string // top-level statements needed before
+	selfCancel bool // the program calls hcancel(), a host function that cancels the context and returns
+	name       string
+	src        string // statements; never terminates
+	blocked    bool   // blocks in a channel operation instead of spinning
+	ticks      int    // tick() calls per cycle
+	setup      string // top-level statements needed before
 }
 
 var c02Cores = []c02Core{
@@ -53,6 +54,10 @@ var c02Cores = []c02Core{
 	{name: "spin-switch", src: "for { switch tickI() { case 0: x = 1\ndefault: x = 2 } }", ticks: 1},
 	{name: "spin-try-inside", src: "for { try { tick(); throw 1 } catch e { } }", ticks: 1},
 	{name: "spin-coalesce-inside", src: "for { x = undefinedName ?? tickI() }", ticks: 1},
+	// the cancellation lands inside one host call; the statements after it are plain calls
+	{name: "host-call-cancels-then-host-calls", src: "hcancel()\ntick()\ntick()\ntick()\ntick()\ntick()\ntick()\ntick()\ntick()\ntick()\ntick()\ntick()\ntick()\nfor { tick() }", ticks: 1, selfCancel: true},
+	{name: "host-call-cancels-then-script-calls", src: "func sc() { tick(); return 1 }\nhcancel()\nsc()\nsc()\nsc()\nsc()\nsc()\nsc()\nsc()\nsc()\nsc()\nsc()\nfor { tick() }", ticks: 1, selfCancel: true},
+	{name: "host-call-cancels-in-expression", src: "x = [hcancel(), tickI(), tickI(), tickI()]\ny = tickI() + tickI() + tickI() + tickI() + tickI() + tickI() + tickI() + tickI()\ntick()\ntick()\ntick()\ntick()\nfor { tick() }", ticks: 1, selfCancel: true},
 	{name: "recv-expr", src: "<- ch", blocked: true, setup: "ch = make(chan int64)"},
 	{name: "recv-stmt", src: "v = <- ch", blocked: true, setup: "ch = make(chan int64)"},
 	{name: "recv-stmt-ok", src: "v, ok = <- ch", blocked: true, setup: "ch = make(chan interface)"},
@@ -71,6 +76,11 @@ type c02Wrapper struct {
 	// called later under the cancellable context
 	pre func(core string, id int) string
 }
+
+// c02Holder: a host struct with a func-typed field a script assigns to
+type c02Holder struct{ F func() }
+
+func (h *c02Holder) Run() { h.F() }
 
 func ind(s string) string { return "  " + strings.ReplaceAll(s, "\n", "\n  ") }
 
@@ -110,6 +120,30 @@ var c02Wrappers = []c02Wrapper{
 	}},
 	{name: "coalesce-left", wrap: func(c string, id int) string { return fmt.Sprintf("x = (func() {\n%s\n}() ?? 1)", ind(c)) }},
 	{name: "coalesce-left-stmt", wrap: func(c string, id int) string { return fmt.Sprintf("func() {\n%s\n}() ?? 1", ind(c)) }},
+	{name: "coalesce-left-map-index", wrap: func(c string, id int) string {
+		return fmt.Sprintf("cm%d = {}\nx = (cm%d[func() {\n%s\n}()] ?? 1)", id, id, ind(c))
+	}},
+	{name: "coalesce-left-map-index-member", wrap: func(c string, id int) string {
+		return fmt.Sprintf("cm%d = {}\nx = (cm%d[func() {\n%s\n}()].a ?? 1)", id, id, ind(c))
+	}},
+	{name: "coalesce-left-list-index", wrap: func(c string, id int) string {
+		return fmt.Sprintf("x = ([1, 2][func() {\n%s\n}()] ?? 1)", ind(c))
+	}},
+	{name: "coalesce-left-index-of-call", wrap: func(c string, id int) string {
+		return fmt.Sprintf("x = (func() {\n%s\n}()[0] ?? 1)", ind(c))
+	}},
+	{name: "coalesce-left-member-of-call", wrap: func(c string, id int) string {
+		return fmt.Sprintf("x = (func() {\n%s\n}().a ?? 1)", ind(c))
+	}},
+	{name: "coalesce-left-paren", wrap: func(c string, id int) string {
+		return fmt.Sprintf("x = ((func() {\n%s\n}()) ?? 1)", ind(c))
+	}},
+	{name: "coalesce-left-operator", wrap: func(c string, id int) string {
+		return fmt.Sprintf("x = ((func() {\n%s\n}() + 1) ?? 1)", ind(c))
+	}},
+	{name: "coalesce-left-slice-bound", wrap: func(c string, id int) string {
+		return fmt.Sprintf("x = ([1, 2][func() {\n%s\n}():] ?? 1)", ind(c))
+	}},
 	{name: "coalesce-right", wrap: func(c string, id int) string { return fmt.Sprintf("x = (nil ?? func() {\n%s\n}())", ind(c)) }},
 	{name: "ternary-arm", wrap: func(c string, id int) string { return fmt.Sprintf("x = true ? func() {\n%s\n}() : 0", ind(c)) }},
 	{name: "call-argument", wrap: func(c string, id int) string { return fmt.Sprintf("ident(func() {\n%s\n}())", ind(c)) }},
@@ -118,6 +152,15 @@ var c02Wrappers = []c02Wrapper{
 	}},
 	{name: "deferred-callee-after-error", wrap: func(c string, id int) string {
 		return fmt.Sprintf("func d%d() {\n  defer func() {\n%s\n  }()\n  throw 1\n}\nd%d()", id, ind(ind(c)), id)
+	}},
+	{name: "deferred-callee-after-failing-defer", wrap: func(c string, id int) string {
+		return fmt.Sprintf("func d%d() {\n  defer func() {\n%s\n  }()\n  defer func() { throw 1 }()\n  return 1\n}\nd%d()", id, ind(ind(c)), id)
+	}},
+	{name: "deferred-callee-before-failing-defer", wrap: func(c string, id int) string {
+		return fmt.Sprintf("func d%d() {\n  defer func() { throw 1 }()\n  defer func() {\n%s\n  }()\n  return 1\n}\nd%d()", id, ind(ind(c)), id)
+	}},
+	{name: "deferred-toplevel-after-failing-defer", wrap: func(c string, id int) string {
+		return fmt.Sprintf("defer func() {\n%s\n}()\ndefer nosuchfn%d()", ind(c), id)
 	}},
 	{name: "deferred-toplevel", wrap: func(c string, id int) string { return fmt.Sprintf("defer func() {\n%s\n}()", ind(c)) }},
 	{name: "switch-case", wrap: func(c string, id int) string { return fmt.Sprintf("switch 1 {\ncase 1:\n%s\n}", ind(c)) }},
@@ -161,6 +204,30 @@ var c02Wrappers = []c02Wrapper{
 	{name: "callback-error-result-ignored", wrap: func(c string, id int) string { return fmt.Sprintf("applyEI(func() {\n%s\n})", ind(c)) }},
 	{name: "callback-value-error-result", wrap: func(c string, id int) string {
 		return fmt.Sprintf("x = applyVE(func(a) {\n%s\n  return a, nil\n}, 1)", ind(c))
+	}},
+	{name: "callback-struct-field-script-call", wrap: func(c string, id int) string {
+		return fmt.Sprintf("hold.F = func() {\n%s\n}\nhold.F()", ind(c))
+	}},
+	{name: "callback-struct-field-host-call", wrap: func(c string, id int) string {
+		return fmt.Sprintf("hold.F = func() {\n%s\n}\nhold.Run()", ind(c))
+	}},
+	{name: "callback-variadic-spread", wrap: func(c string, id int) string {
+		return fmt.Sprintf("fs%d = [func() {\n%s\n}]\napplyAll(fs%d...)", id, ind(c), id)
+	}},
+	{name: "callback-variadic-plain", wrap: func(c string, id int) string {
+		return fmt.Sprintf("applyAll(func() { }, func() {\n%s\n})", ind(c))
+	}},
+	{name: "callback-typed-chan", wrap: func(c string, id int) string {
+		return fmt.Sprintf("fch <- func() {\n%s\n}\nrecvAndCall()", ind(c))
+	}},
+	{name: "callback-typed-slice-literal", wrap: func(c string, id int) string {
+		return fmt.Sprintf("make(type FN, hold.F)\nfl%d = []FN{func() {\n%s\n}}\napplyAll(fl%d...)", id, ind(c), id)
+	}},
+	{name: "callback-map-of-funcs", wrap: func(c string, id int) string {
+		return fmt.Sprintf("applyMap({\"k\": func() {\n%s\n}})", ind(c))
+	}},
+	{name: "callback-returned-by-callback", wrap: func(c string, id int) string {
+		return fmt.Sprintf("applyMaker(func() { return func() {\n%s\n} })", ind(c))
 	}},
 	{name: "callback-less", wrap: func(c string, id int) string {
 		return fmt.Sprintf("sortLike([2, 1], func(a, b) {\n%s\n  return true\n})", ind(c))
@@ -303,6 +370,10 @@ func init() {
 			if core.blocked || core.ticks == 0 {
 				cc.sync = false
 			}
+			if core.selfCancel {
+				// the program cancels itself from inside a host call: no other cancel
+				cc.sync, cc.k = true, 1<<30
+			}
 			cc.procs = []int{1, 2, 16}[c.Rng.Intn(3)]
 			c02Run(c, cc, time.Duration(c.Rng.Intn(3000))*time.Microsecond)
 		},
@@ -345,11 +416,28 @@ func c02Run(c *wk.Case, cc c02Case, delay time.Duration) {
 	e.Define("tick", func() { tick() })
 	e.Define("tickT", func() bool { tick(); return true })
 	e.Define("tickI", func() int64 { tick(); return 0 })
+	e.Define("hcancel", func() { doCancel() })
 	e.Define("ident", func(a interface{}) interface{} { return a })
 	e.Define("apply", func(f func()) { f() })
 	e.Define("applyE", func(f func() error) error { return f() })
 	e.Define("applyEI", func(f func() error) { _ = f() })
 	e.Define("applyVE", func(f func(int64) (interface{}, error), n int64) interface{} { v, _ := f(n); return v })
+	hold := &c02Holder{}
+	e.Define("hold", hold)
+	e.Define("applyAll", func(fs ...func()) {
+		for _, f := range fs {
+			f()
+		}
+	})
+	fch := make(chan func(), 1)
+	e.Define("fch", fch)
+	e.Define("recvAndCall", func() { f := <-fch; f() })
+	e.Define("applyMap", func(m map[string]func()) {
+		for _, f := range m {
+			f()
+		}
+	})
+	e.Define("applyMaker", func(mk func() func()) { mk()() })
 	e.Define("sortLike", func(l []interface{}, less func(a, b interface{}) bool) {
 		if len(l) >= 2 {
 			less(l[0], l[1])
